@@ -49,6 +49,7 @@ type World struct {
 	pinned           map[*ssa.Function]ssa.CallInstruction
 	idxSums          map[*ssa.Function]*idxSummary
 	recBusy          map[ssa.Value]bool
+	upBusy           map[*ssa.Parameter]bool
 	recEsc           map[*ssa.Alloc]bool
 	phiSel           map[*ssa.Phi]int // join under consideration: the incoming edge each of its phis takes its value from
 	cbOK             map[*ssa.Function]bool
